@@ -62,12 +62,16 @@ func SentinelClientMiddleware(opts ...Option) middleware.Middleware {
 				slotChain := sentinel.BuildDefaultSlotChain()
 				slotChain.AddRuleCheckSlot(outlier.DefaultSlot)
 				slotChain.AddStatSlot(outlier.DefaultMetricStatSlot)
-				entry, _ := sentinel.Entry(
+				entry, blockErr := sentinel.Entry(
 					resourceName,
 					sentinel.WithResourceType(base.ResTypeRPC),
 					sentinel.WithTrafficType(base.Outbound),
 					sentinel.WithSlotChain(slotChain),
 				)
+				if blockErr != nil {
+					// a blocked request has no entry: do not call the service (and do not dereference the nil entry)
+					return options.BlockFallback(ctx, req, blockErr)
+				}
 				defer entry.Exit()
 
 				if v, ok := metadata.FromClientContext(ctx); ok {
